@@ -34,6 +34,9 @@ def _first_str(node):
 UNWRAPPING_ADAPTORS = {"and_then", "map", "is_some_and", "is_ok_and", "map_or", "map_or_else", "inspect"}
 
 
+ITER_SOURCES = {"iter", "into_iter", "iter_mut", "chars", "char_indices", "enumerate", "zip", "filter", "filter_map", "skip", "rev", "chain", "values", "keys", "drain", "lines", "split", "bytes", "type_params", "lifetimes", "const_params", "pairs"}
+
+
 def _lets(fn):
     """single-assignment immutable `let name = init;` bindings of a function (for inlining)"""
     count = {}
@@ -50,6 +53,9 @@ def _lets(fn):
     # `r.and_then(|p| f(p))` tests the same thing as `let p = r?; f(p)`
     for mc, _ in A.find(fn.block, "Expr::MethodCall"):
         if mc["method"]["sym"] in UNWRAPPING_ADAPTORS and len(mc["args"]) >= 1 and A.kind(mc["args"][-1]) == "Expr::Closure":
+            # (an iterator's `.map(|elem| ..)` is not an unwrapping: its parameter is one element, a plain local name)
+            if {o[1] for o in A.chain(mc["receiver"])[1] if o[0] == "m"} & ITER_SOURCES:
+                continue
             cl = mc["args"][-1]
             if len(cl["inputs"]) == 1:
                 cp = cl["inputs"][0]
@@ -57,6 +63,14 @@ def _lets(fn):
                     cp = cp["pat"]
                 if A.kind(cp) == "Pat::Ident" and not cp.get("by_ref"):
                     inits.setdefault(cp["ident"]["sym"], {"_": "Expr::Try", "attrs": [], "expr": mc["receiver"]})
+    # `for x in xs.map(|p| E)`: the loop variable stands for `E` (of one element `p`)
+    for fl, _ in A.find(fn.block, "Expr::ForLoop"):
+        lp = fl["pat"]
+        it = A.peel(fl["expr"])
+        if A.kind(lp) == "Pat::Ident" and not lp.get("by_ref") and A.kind(it) == "Expr::MethodCall" and it["method"]["sym"] == "map" and len(it["args"]) == 1 and A.kind(it["args"][0]) == "Expr::Closure":
+            cl = it["args"][0]
+            if len(cl["inputs"]) == 1 and A.kind(cl["inputs"][0]) == "Pat::Ident" and A.kind(cl["body"]) != "Expr::Block":
+                inits.setdefault(lp["ident"]["sym"], cl["body"])
     # names also bound by closures / patterns elsewhere are ambiguous
     for x, _ in A.walk(fn.block):
         k = A.kind(x)
@@ -65,7 +79,11 @@ def _lets(fn):
                 for n in A.pat_idents(p):
                     count[n] = count.get(n, 0) + 1
         elif k in ("Arm", "Expr::Let", "Expr::ForLoop"):
+            # `if let Ok(x) = x` re-binds the name from its own earlier value: the scrutinee still means the `let`
+            scr = A.render(A.peel(x["expr"])) if k == "Expr::Let" else None
             for n in A.pat_idents(x["pat"]):
+                if scr == n:
+                    continue
                 count[n] = count.get(n, 0) + 1
     for p in fn.node["sig"]["inputs"]:
         if A.kind(p) == "FnArg::Typed":
